@@ -28,6 +28,13 @@ m = {
  'not_applicable': na,
 }
 json.dump(m, open(os.path.join(V, 'MANIFEST.json'), 'w'), indent=1)
+# merged view of the per-property known-findings files
+merged = {'comment': "Merged view of findings.d/*.json (the per-property files are what the checks read). 'findings' are recorded-but-not-repaired genuine defects, matched by clause + case tags; a check prints KNOWN-FINDING for them and still reports any other violation. 'fixed' entries document repaired defects and suppress nothing.", 'findings': [], 'fixed': []}
+for p in sorted(glob.glob(os.path.join(V, 'findings.d', 'C*.json'))):
+    d = json.load(open(p))
+    merged['findings'] += d.get('findings', [])
+    merged['fixed'] += d.get('fixed', [])
+json.dump(merged, open(os.path.join(V, 'known_findings.json'), 'w'), indent=1)
 try:
     import jsonschema
     jsonschema.validate(m, json.load(open('/root/.vp/MANIFEST.schema.json')))
